@@ -94,11 +94,30 @@ func (c *serverConn) onEIOPacket(packets ...*eioparser.Packet) {
 }
 
 func (c *serverConn) onParserFinish(header *parser.PacketHeader, eventName string, decode parser.Decode) {
-	go func() {
-		if header.Namespace == "" {
-			header.Namespace = "/"
-		}
+	if header.Namespace == "" {
+		header.Namespace = "/"
+	}
+
+	// From here on every packet is handled on a goroutine of its own, in no particular order. A client that
+	// disconnects from a namespace and connects to it again right away sends a DISCONNECT and a CONNECT packet
+	// back to back. If the CONNECT packet were handled first it would find the old socket still in place,
+	// which is the "already connected" state that closes the whole connection. So the DISCONNECT packet
+	// takes the socket off the connection right here, in the order of arrival; the rest of the disconnection
+	// (handlers, rooms) is done on the goroutine as before.
+	var disconnected *serverSocket
+	if header.Type == parser.PacketTypeDisconnect {
 		socket, ok := c.sockets.getByNsp(header.Namespace)
+		if ok {
+			c.remove(socket)
+			disconnected = socket
+		}
+	}
+
+	go func() {
+		socket, ok := c.sockets.getByNsp(header.Namespace)
+		if disconnected != nil {
+			socket, ok = disconnected, true
+		}
 
 		if header.Type == parser.PacketTypeConnect && !ok {
 			c.connect(header, decode)
